@@ -39,6 +39,10 @@
     later) are ignored. The stored PodGroup carries arbitrary label / annotation maps and a
     foreign update ([foreign_upd]: [f_labels], [f_annots]) may set or delete any key of them.
     [pg_equal_swapped] - the two map arguments exchanged - is NOT a version of the code.
+    The last section holds what the history theorems need: the grouper-owned projection of a PodGroup
+    ([owned_view], [owned_agreeb]), histories ([hevent]: reconciles, foreign updates, edited owner objects,
+    overwritten and deleted PodGroups; [hrun]) and [reconcile_early_return] - Reconcile returning before
+    ApplyToCluster for an already assigned pod, the seeded change C18-3 - which is NOT a version of the code.
 
     Left out / oracles: all other plugins (kubeflow, ray, spark, jobset, grove,
     lws, knative, cronjob, runaijob, aml, spotrequest, notebook) give
@@ -867,3 +871,76 @@ Record fview := { fv_queue : string; fv_mark : option bool; fv_backoff : option 
 Definition foreign_view (cfg : config) (g : pg) : fview :=
   {| fv_queue := sp_queue g; fv_mark := sp_mark g; fv_backoff := sp_backoff g;
      fv_nodepool := mget (c_nodepool_key cfg) (pg_labels g) |}.
+
+(** * Histories: edited owners, overwritten and deleted PodGroups (C18_history_independent)
+
+    The grouper-owned part of a stored PodGroup: what ApplyToCluster takes from the computed metadata and not
+    from the stored object - every spec field but queue / markUnschedulable / schedulingBackoff, and the owner
+    references ([owned_view]; sub-groups up to the API's nil / empty round trip); every label the grouper
+    computes other than the queue and node-pool labels; every annotation it computes. Labels and annotations
+    are merged into the stored maps and never removed (updatePodGroup / copyStringMap), so for them "agrees
+    with the fresh PodGroup" is: every key the fresh PodGroup carries is on the stored one with the same value. *)
+Record oview := {
+  ov_min : Z; ov_prio : string; ov_preempt : string;
+  ov_subgroups : option (list subgroup); ov_topo : topo; ov_owners : list owner_ref
+}.
+Definition owned_view (g : pg) : oview :=
+  {| ov_min := sp_min g; ov_prio := sp_prio g; ov_preempt := sp_preempt g;
+     ov_subgroups := norm_slice (sp_subgroups g); ov_topo := sp_topo g; ov_owners := pg_owners g |}.
+Definition oview_eqb (a b : oview) : bool :=
+  Z.eqb (ov_min a) (ov_min b) && String.eqb (ov_prio a) (ov_prio b) && String.eqb (ov_preempt a) (ov_preempt b)
+  && opt_eqb (list_eqb subgroup_eqb) (ov_subgroups a) (ov_subgroups b) && topo_eqb (ov_topo a) (ov_topo b)
+  && list_eqb owner_ref_eqb (ov_owners a) (ov_owners b).
+
+(** every binding of [fresh] whose key is not in [skip] is a binding of [hist] *)
+Definition keys_agree (skip : list string) (fresh hist : option smap) : bool :=
+  let l := match fresh with None => [] | Some l => l end in
+  forallb (fun kv => existsb (String.eqb (fst kv)) skip
+                     || opt_eqb String.eqb (mget (fst kv) hist) (lookup (fst kv) l)) l.
+
+(** the stored PodGroup [hist] agrees with the PodGroup [fresh] of a fresh run on the grouper-owned part *)
+Definition owned_agreeb (cfg : config) (fresh hist : pg) : bool :=
+  oview_eqb (owned_view hist) (owned_view fresh)
+  && keys_agree [c_queue_key cfg; c_nodepool_key cfg] (pg_labels fresh) (pg_labels hist)
+  && keys_agree [] (pg_annots fresh) (pg_annots hist).
+
+(** events of a history: besides reconciles and foreign updates ([HEv], under the owner objects of the
+    moment), the owner objects are edited ([HOwners]: any new set of owner objects - changed labels,
+    annotations, owner references, objects added or removed), somebody overwrites a PodGroup with arbitrary
+    content, grouper-owned fields included ([HTamper]; creates it when absent), a PodGroup is deleted *)
+Inductive hevent :=
+| HEv (e : event)
+| HOwners (cl' : list obj)
+| HTamper (n : string) (g : pg)
+| HDelete (n : string).
+
+(** [rc] = the reconciler ([reconcile], or a variant that is not the code) *)
+Definition hstep_with (rc : config -> list obj -> pod -> state -> state * Z) (cfg : config)
+           (h : hevent) (cs : list obj * state) : list obj * state :=
+  match h with
+  | HEv (EvReconcile p) => (fst cs, fst (rc cfg (fst cs) p (snd cs)))
+  | HEv e => (fst cs, fst (step cfg (fst cs) e (snd cs)))
+  | HOwners cl' => (cl', snd cs)
+  | HTamper n g => (fst cs, {| st_pgs := aset n g (st_pgs (snd cs)); st_asg := st_asg (snd cs) |})
+  | HDelete n => (fst cs, {| st_pgs := adel n (st_pgs (snd cs)); st_asg := st_asg (snd cs) |})
+  end.
+Definition hrun_with (rc : config -> list obj -> pod -> state -> state * Z) (cfg : config)
+           (hs : list hevent) (cs : list obj * state) : list obj * state :=
+  fold_left (fun cs h => hstep_with rc cfg h cs) hs cs.
+Definition recs_with (rc : config -> list obj -> pod -> state -> state * Z) (cfg : config) (cl : list obj)
+           (ps : list pod) (s : state) : state :=
+  fold_left (fun s p => fst (rc cfg cl p s)) ps s.
+
+(** the code as it is *)
+Definition hstep := hstep_with reconcile.
+Definition hrun := hrun_with reconcile.
+
+(** NOT the code: PodReconciler.Reconcile returning BEFORE PodGroupHandler.ApplyToCluster when the pod already
+    carries the expected pod-group annotation (and sub-group label) - the seeded change C18-3, "nothing left to
+    do for a pod that was grouped long ago". Used only by the theorems that show what the call is for. *)
+Definition reconcile_early_return (cfg : config) (cl : list obj) (p : pod) (s : state) : state * Z :=
+  let a := get_asg (p_name p) s in
+  match full_md cfg cl p a with
+  | None => (s, 0%Z)
+  | Some m => if needs_patch m p a then reconcile cfg cl p s else (s, 0%Z)
+  end.
